@@ -675,16 +675,18 @@ class Base:
     """a parsed template; render(mutation) gives program text.
     mutation: None | ('hole', idx, pre_lines, expr) | ('stmt', idx, lines) | ('ret', idx)"""
 
-    def __init__(self, name, body, prelude=PRELUDE, kind="hand", extra_files=None):
+    def __init__(self, name, body, prelude=PRELUDE, kind="hand", extra_files=None, imp=None, target="p.nano"):
         self.name = name
         self.kind = kind
         self.extra_files = extra_files or {}
+        self.imp = imp              # import context (None = a single-file program / a generated program)
+        self.target = target        # the file the template is rendered to (an imported module for 'in-module')
         text = body.replace("%MARKER%", MARKER)
         if prelude:
-            # imports (generated multi-file programs) stay in front of the prelude
+            # imports stay in front of the prelude
             ls = text.split("\n")
             k = 0
-            while k < len(ls) and ls[k].startswith("from "):
+            while k < len(ls) and ls[k].startswith(("from ", "module ", "unsafe module ", "import ")):
                 k += 1
             text = "\n".join(ls[:k] + [prelude.rstrip("\n")] + ls[k:])
         self.lines = text.split("\n")
@@ -737,7 +739,7 @@ class Base:
 
     def files(self, mut=None):
         d = dict(self.extra_files)
-        d["p.nano"] = self.render(mut)
+        d[self.target] = self.render(mut)
         return d
 
 
@@ -1029,6 +1031,158 @@ STMT_CONTROLS = [("match-all-variants", ["let zs: Sh = Sh.Circle { r: 1 }", "mat
                  ("resource-create-consume", ["let zr: Res = (mk 3)", "(closer zr)"]),
                  ("resource-literal-consume", ["let zr: Res = Res { fd: 3 }", "(closer zr)"]),
                  ("extern-in-unsafe", ["let mut ze: int = 0", "unsafe {", "    set ze (labs 3)", "}"])]
+
+
+# =========================================================================================================
+#  import contexts (multi-file): state that leaks between modules through the shared Environment cannot be seen
+#  by a single-file table.  The same violating site is placed in a main program that imports (ii) an ordinary
+#  module, (iii) a module declaring extern functions, (iv) a wrapper module that itself has an `unsafe module`
+#  import, and (v) inside an imported module while main is fine.  (i) "imports nothing" is the plain table.
+#  Only rule/context pairs that are rejected in the single-file table are instantiated here.
+# =========================================================================================================
+ZM_PLAIN = '''# an ordinary module
+pub fn zm_twice(a: int) -> int {
+    return (* a 2)
+}
+'''
+ZM_EXTERN = '''# raw FFI declarations (get_argc is provided by the runtime)
+extern fn get_argc() -> int
+
+pub fn zm_argc() -> int {
+    let mut n: int = 0
+    unsafe {
+        set n (get_argc)
+    }
+    return n
+}
+'''
+ZM_WRAP = '''# wrapper around the raw FFI module: note the *unsafe* import
+unsafe module "zmextern.nano"
+
+pub fn zm_count() -> int {
+    return (zm_argc)
+}
+'''
+IMPORT_CTX = {
+    # name: (import line of main, a use of the imported function in main, files)
+    "imports-plain": ('module "zmplain.nano"', "(println (zm_twice 21))", {"zmplain.nano": ZM_PLAIN}),
+    "imports-extern-module": ('module "zmextern.nano"', "(println (>= (zm_argc) 0))", {"zmextern.nano": ZM_EXTERN}),
+    "imports-unsafe-wrapper": ('module "zmwrap.nano"', "(println (>= (zm_count) 0))",
+                               {"zmwrap.nano": ZM_WRAP, "zmextern.nano": ZM_EXTERN}),
+}
+IMPORT_CONTEXTS = list(IMPORT_CTX) + ["in-module"]
+
+# (v): the template is the imported module; p.nano (IN_MODULE_MAIN) is well-formed.  The module gets a reduced
+# prelude (what the IMPORT_PAIRS entries refer to): enum / union parameters inside a module trip over false
+# diagnostics of the module type check, which would make the control fail.
+MOD_PRELUDE = '''struct P { x: int, y: int }
+extern fn labs(x: int) -> int
+let gimm: int = 11
+let mut gmut: int = 12
+fn i2i(a: int) -> int {
+    return (+ a 1)
+}
+shadow i2i { assert (== (i2i 1) 2) }
+fn i2b(a: int) -> bool {
+    return (> a 0)
+}
+shadow i2b { assert (i2b 1) }
+fn i2s(a: int) -> string {
+    return (int_to_string a)
+}
+shadow i2s { assert (== (i2s 1) "1") }
+'''
+IN_MODULE = '''pub fn zm_work(a: int, s: string, t: bool) -> int {
+    @@ fn-body ret=int par=a:int,s:string,t:bool
+    let x: int = <<let:int|(+ a 1)>>
+    let ok: bool = <<let:bool|(> a 2)>>
+    let nm: string = <<let:string|(+ s "!")>>
+    let mut y: int = 0
+    let mut fg: bool = false
+    set y <<set:int|(* x 2)>>
+    set fg <<set:bool|(and ok t)>>
+    @@ fn-body ret=int imm=x:int,ok:bool,nm:string par=a:int,s:string,t:bool
+    if <<cond-if:bool|(> y 3)>> {
+        @@ if-then ret=int imm=x:int,ok:bool par=a:int,t:bool
+        set y (+ y 1)
+    } else {
+        @@ if-else ret=int imm=x:int,nm:string par=s:string
+        set y (+ y 2)
+    }
+    let mut i: int = 0
+    while <<cond-while:bool|(< i 3)>> {
+        set i (+ i 1)
+        @@ while-body ret=int imm=x:int,ok:bool par=a:int,s:string
+        if (> i 6) {
+            break
+        }
+    }
+    for k in (range 0 2) {
+        @@ for-body ret=int imm=x:int,nm:string par=t:bool
+        set y (+ y k)
+        if (> y 1) {
+            @@ nested ret=int imm=x:int par=a:int
+            set y (+ y 1)
+        }
+    }
+    (println nm)
+    if <<cond-if:bool|fg>> {
+        return <<return:int|(+ x y)>>
+    }
+    return <<return:int|y>>
+}
+pub fn zm_flag(n: int) -> bool {
+    @@ fn-body ret=bool par=n:int
+    let lim: int = <<let:int|10>>
+    let mut c: int = 0
+    while <<cond-while:bool|(< c n)>> {
+        set c <<set:int|(+ c 1)>>
+        if (> c 5) {
+            break
+        }
+    }
+    @@ fn-body ret=bool imm=lim:int par=n:int
+    return <<return:bool|(< c lim)>>
+}
+pub fn zm_name(n: int) -> string {
+    let base: string = <<let:string|(i2s n)>>
+    @@ fn-body ret=string imm=base:string par=n:int
+    return <<return:string|(+ base "#")>>
+}
+'''
+IN_MODULE_MAIN = '''module "zmod.nano"
+
+fn main() -> int {
+    (println "%MARKER%")
+    (println (zm_work 3 "ab" true))
+    (println (zm_flag 4))
+    (println (zm_name 7))
+    return 0
+}
+shadow main { assert (== (main) 0) }
+'''
+# rule/context pairs that get an import dimension (all of them are rejected by all tools in a single file)
+IMPORT_PAIRS = [("extern-outside-unsafe", "expr-stmt"),
+                ("set-immutable-local", "fn-body"), ("set-immutable-local", "while-body"), ("set-parameter", "fn-body"),
+                ("set-parameter", "if-then"), ("set-immutable-global", "fn-body"), ("set-unknown-var", "fn-body"),
+                ("type-mismatch", "let"), ("type-mismatch", "set"), ("type-mismatch", "return"), ("return-type", "fn-body"),
+                ("type-mismatch", "cond-if"), ("type-mismatch", "cond-while"),
+                ("unknown-var", "let"), ("unknown-var", "return"), ("unknown-var", "cond-if"), ("unknown-fn", "let"),
+                ("unknown-fn", "set")]
+
+
+def import_bases(hand):
+    """the hand-written bases once per import context (ii)-(iv), and the module template (v)"""
+    out = []
+    for ic, (line, use, files) in IMPORT_CTX.items():
+        for name, body in hand:
+            marker_line = '    (println "%MARKER%")\n'
+            assert body.count(marker_line) == 1
+            body2 = line + "\n" + body.replace(marker_line, marker_line + "    " + use + "\n")
+            out.append(Base("%s+%s" % (name, ic), body2, extra_files=dict(files), imp=ic))
+    out.append(Base("zmod", IN_MODULE, prelude=MOD_PRELUDE, extra_files={"p.nano": IN_MODULE_MAIN.replace("%MARKER%", MARKER)},
+                    imp="in-module", target="zmod.nano"))
+    return out
 
 
 # =========================================================================================================
@@ -1363,32 +1517,53 @@ def build_cells(bases, nsites, rng_for):
                     break
         cells[(rule, context)] = chosen
 
+    all_bases = bases
+    bases = [b for b in all_bases if b.imp is None]
+    expr_fn = dict(EXPR_RULES)
+
+    def expr_cands(rule, context, bs):
+        fn = expr_fn[rule]
+        cands = []
+        for b in bs:
+            if context == "expr-stmt":
+                vs0 = expr_variants(rule, fn, context, None, None)
+                for pt in b.points:
+                    cands.append((b, "p%d" % pt.idx, "stmt point %d (%s)" % (pt.idx, pt.blockctx),
+                                  [(vn, ("stmt", pt.idx, list(pre) + [e])) for vn, pre, e in vs0]))
+            else:
+                for h in b.holes:
+                    if h.ctx != context:
+                        continue
+                    vs = expr_variants(rule, fn, context, h.T, h.default)
+                    cands.append((b, "h%d" % h.idx, "hole %d (%s:%s)" % (h.idx, h.ctx, h.T),
+                                  [(vn, ("hole", h.idx, list(pre), e)) for vn, pre, e in vs]))
+        return cands
+
+    def stmt_cands(rule, context, bs):
+        cands = []
+        for b in bs:
+            for pt in b.points:
+                if pt.blockctx == context:
+                    cands.append((b, "p%d" % pt.idx, "stmt point %d (%s)" % (pt.idx, pt.blockctx),
+                                  [(vn, ("stmt", pt.idx, lines)) for vn, lines in stmt_variants(rule, pt)]))
+        return cands
+
     for rule, fn in EXPR_RULES:
         for context in EXPR_CONTEXTS:
-            cands = []
-            for b in bases:
-                if context == "expr-stmt":
-                    vs0 = expr_variants(rule, fn, context, None, None)
-                    for pt in b.points:
-                        cands.append((b, "p%d" % pt.idx, "stmt point %d (%s)" % (pt.idx, pt.blockctx),
-                                      [(vn, ("stmt", pt.idx, list(pre) + [e])) for vn, pre, e in vs0]))
-                else:
-                    for h in b.holes:
-                        if h.ctx != context:
-                            continue
-                        vs = expr_variants(rule, fn, context, h.T, h.default)
-                        cands.append((b, "h%d" % h.idx, "hole %d (%s:%s)" % (h.idx, h.ctx, h.T),
-                                      [(vn, ("hole", h.idx, list(pre), e)) for vn, pre, e in vs]))
-            pick(rule, context, cands)
+            pick(rule, context, expr_cands(rule, context, bases))
     for rule in STMT_RULES:
         for context in STMT_CONTEXTS:
-            cands = []
-            for b in bases:
-                for pt in b.points:
-                    if pt.blockctx == context:
-                        cands.append((b, "p%d" % pt.idx, "stmt point %d (%s)" % (pt.idx, pt.blockctx),
-                                      [(vn, ("stmt", pt.idx, lines)) for vn, lines in stmt_variants(rule, pt)]))
-            pick(rule, context, cands)
+            pick(rule, context, stmt_cands(rule, context, bases))
+    # import dimension: context names are "<context>+<import context>"
+    for ic in IMPORT_CONTEXTS:
+        bs = [b for b in all_bases if b.imp == ic]
+        if not bs:
+            continue
+        for rule, context in IMPORT_PAIRS:
+            cands = stmt_cands(rule, context, bs) if rule in STMT_RULES else expr_cands(rule, context, bs)
+            if rule == "extern-outside-unsafe" and ic == "in-module":
+                pass        # the module's prelude declares labs itself: same entry
+            pick(rule, context + "+" + ic, cands)
     for shape in RET_SHAPES:
         cands = []
         for b in bases:
@@ -1405,7 +1580,7 @@ def control_mutants(bases):
     out = []
     for b in bases:
         out.append(("base:" + b.name, b, None))
-    hb = [b for b in bases if b.kind == "hand" and b.points]
+    hb = [b for b in bases if b.kind == "hand" and b.points and b.imp is None]
     pres = {}
     for rule, fn in EXPR_RULES:
         for T in ("int", "bool", "string", "float", "P", "void", "Color", "Sh"):
@@ -1432,6 +1607,7 @@ def control_mutants(bases):
 def make_bases(ctx):
     bases = [Base(n, t) for n, t in HAND_BASES]
     bases.append(Base("b6", returns_base(False)))
+    bases += import_bases(HAND_BASES)
     if os.environ.get("NLV_C05_ALL"):
         bases.append(Base("b7", returns_base(True)))
         return bases
